@@ -205,11 +205,14 @@ func (k Keeper) TallyValidityProofs(ctx sdk.Context, duration time.Duration, rep
 			shardProofSubmitted := make(map[int64]map[string]bool)
 			for _, proof := range proofs {
 				for _, index := range proof.Indices {
-					shardProofCount[index]++
 					if shardProofSubmitted[index] == nil {
 						shardProofSubmitted[index] = make(map[string]bool)
 					}
-					shardProofSubmitted[index][proof.Sender] = true
+					// a validator counts once per shard, however often the index is repeated
+					if !shardProofSubmitted[index][proof.Sender] {
+						shardProofCount[index]++
+						shardProofSubmitted[index][proof.Sender] = true
+					}
 				}
 			}
 
